@@ -2,15 +2,15 @@
 from props_common import COMMON_NOTE
 
 CONF = dict(
-    families=[('raw', 250, 4000), ('rawblk', 200, 3000), ('dec', 1800, 40000)],
+    families=[('raw', 250, 4000), ('rawblk', 200, 3000), ('proof', 200, 3000), ('dec', 1800, 40000)],
     s_only_families=['dec'],
     compare=None,
-    trusted=['modelled by hand (theorems): the transaction, block-header and block decoders; every other decoder (merkle block, PSET v0/v2 binary/hex/base64, addresses, blech32, '
+    trusted=['modelled by hand (theorems): the transaction, block-header, block and merkle-block decoders (merkle: Model/Merkle.v parser + Model/MerkleIx.v, ExtractMatches with index cursors and explicit index-out-of-range outcomes, proved equal to the model that C20 compares with the implementation; btcd wire.MsgMerkleBlock.BtcDecode layout, caps and allocation order are written out by hand); every other decoder (PSET v0/v2 binary/hex/base64, addresses, blech32, '
              'control blocks, descriptors) is exercised on the implementation by the oracle S here and modelled in its own property (C20, C08, C07, C14, C15, C16)',
              'allocation is measured with runtime.MemStats.TotalAlloc around each decode (bound: 400 x input length + 16 MiB of constant overhead (regexp compilation, key parsing)) under a 24 GB address-space limit; the Go allocator itself is not modelled'],
     assumptions=['external decoders below the repository (btcd wire/txscript, btcutil base58/bech32, encoding/hex, encoding/base64, regexp) are assumed total'],
     explanation='theorems (partial: tx/header/block decoders): acceptance is stable under extension of the input, hence no strict prefix of a valid encoding is accepted; every slice length is '
-                'checked against the bytes present; an accepted value is exactly as large as the bytes consumed. K: model vs implementation on the malformed transaction and block streams. '
+                'checked against the bytes present; an accepted value is exactly as large as the bytes consumed. K: model vs implementation on the malformed transaction and block streams and on corrupted/malformed merkle blocks (family proof: parse + ExtractMatches, an implementation panic is a mismatch). merkle blocks: C12_merkle_* (stability, trailing bytes ignored, strict prefixes rejected, accepted = complete encoding, counts capped before reservation, allocation <= constant + 9 x input and <= 9 x input when accepted; proportionality refuted for rejected inputs: btcd reserves 16 MB for an 89-byte blob; ExtractMatches never indexes out of range, and does with the weaker guard of the seeded change). '
                 'S: for all twelve decoder entry points, on valid encodings with single mutations/truncations/huge counts and noise: no panic, bounded allocation, every strict prefix of an '
                 'unmodified valid encoding rejected, and the accepted value survives re-serialization, sanity check, hashing, signature validation, finalization and extraction.',
     nontrivial_rule='distinct inputs that the decoder accepted or that made the oracle fail (bare rejections are trivial)',
